@@ -65,10 +65,12 @@ def main():
         # user-visible oracle: non-terminating programs under playground-run must end with a limit error quickly
         progs = ["while True { }", "fun f(n: Int): Int { f(n + 1) }\nf(0)", "let xs = [1]\nwhile True { xs = xs.append(1) }",
                  # a budget used up by an earlier evaluation in the same run (a test block), then another loop
-                 "test spin { while True { } }\nwhile True { }", "test a { while True { } }\ntest b { while True { } }\n1"]
+                 "test spin { while True { } }\nwhile True { }", "test a { while True { } }\ntest b { while True { } }\n1",
+                 # non-termination whose steps all lie inside a prelude (built-in file) function
+                 '"abc".replace("", "-")', '"abc".split("")', "range(0, 1000000000000)"]
         bad = []
         for p in progs:
-            code, out, err = native.run_file(p, subcmd=("playground-run",), timeout=60)
+            code, out, err = native.run_file(p, subcmd=("playground-run",), timeout=90)
             if code == -9 or code == 101 or ("limit" not in out.lower()):
                 bad.append({"program": p, "code": code, "out": out[:200], "err": err[:200]})
         return {"reproduced": bool(bad), "artefact": bad[:1], "detail": f"{len(bad)} of {len(progs)} programs did not end with a limit error"}
